@@ -60,9 +60,15 @@ def register_forward_ref(
         return
     evaluated = None
     if annotation.__forward_evaluated__:
-        evaluated = True
-        annotation = annotation.__forward_value__
-    elif global_vars:
+        if global_vars:
+            # typing caches generic aliases (List['B'], Optional['B']) together with their ForwardRef object,
+            # so this reference may have been evaluated by a declaration of *another* module against that
+            # module's globals: evaluate a private copy against these globals instead of adopting the value
+            annotation = ForwardRef(annotation.__forward_arg__)
+        else:
+            evaluated = True
+            annotation = annotation.__forward_value__
+    if not evaluated and global_vars:
         ref = annotation
         try:
             annotation = evaluate_forward_ref(annotation, global_vars, None)
